@@ -68,6 +68,16 @@ class Check:
         return sum(1 for o in self.obligations if o.rule == rule)
 
 
+def guard(chk: "Check", fn, *args) -> None:
+    """Run one rule; an anchor it cannot recognise is an analysis error of that rule only."""
+    from .model import AnchorError
+
+    try:
+        fn(*args)
+    except AnchorError as e:
+        chk.error(f"{getattr(fn, '__name__', 'rule')}: anchor not found: {e}")
+
+
 def load_known() -> List[Dict[str, Any]]:
     if not os.path.exists(KNOWN_FINDINGS):
         return []
@@ -114,7 +124,7 @@ def finish(chk: Check, digest: str, stats: Dict[str, int], seed: int = 0, write:
         for e in chk.errors:
             print(f"ANALYSIS-ERROR property={chk.prop} {e}")
         code = 2
-    if new and code == 0:
+    if new:  # a violation found by a rule that ran is reported even if another rule could not anchor
         if write:
             os.makedirs(out_dir, exist_ok=True)
         for o in new:
